@@ -384,11 +384,12 @@ theorem range_csi_arm_6e {e : Emu} {rows cols : Nat} (h : EmuInv e rows cols) (d
   obtain ⟨b1, b2, b3, b4, b5, b6, b7, b8, b9, b10, b11, b12, b13, b14, b15⟩ := good_bounds h d
   simp only [TermBodies.body_csi_arm_6e, TermBodies.stmt_csi_arm_6e, rangeBody, rangeS, exsR, condR, exR, evalEx, evalCond, evalCmp,
     initFrame, Frame.get, inR, lim, Bool.and_true, Bool.true_and, andThen_norm, evalS]
-  split
-  · trivial
-  · split
-    · exact (Bool.and_eq_true _ _).mpr ⟨decide_eq_true (by omega), decide_eq_true (by omega)⟩
-    · trivial
+  -- whatever the order of the arms of the switch
+  repeat' split
+  all_goals first
+    | trivial
+    | exact (Bool.and_eq_true _ _).mpr ⟨decide_eq_true (by omega), decide_eq_true (by omega)⟩
+    | exact ite_self _
 
 /-- decrqm(): no arithmetic at all (the arguments of its `Fprintf` are the locals `pd`, `ps`), any state, any mode number -/
 theorem range_decrqm (e : Emu) (pd : Int) : rangeBody TermBodies.body_decrqm [] [pd] e = true := by
